@@ -8,9 +8,15 @@ from ..cfg import CFG, any_call_may_raise, reaching_defs
 from ..model import AnalysisError, Func, head, norm
 from .common import GRAPH_MUTATORS
 from . import engine as E
+from . import roles
 from . import runrules as R
 
-PLAN_MUTATING = {"call", "lit", "gather", "add_dependency", "unpack", "scope", "_call", "_gather"}
+PLAN_MUTATING = {"call", "lit", "gather", "add_dependency", "unpack", "scope"}  # + every private method of Plan (plan_mutating())
+
+
+def plan_mutating(m):
+    """Method names through which a Plan is modified: every method of Plan except its copy."""
+    return PLAN_MUTATING | {n for n in roles.plan_class(m).methods if n not in ("copy", "__copy__", "__init__", "__repr__")}
 PLAN_PURE = {"copy", "__copy__"}
 REGISTRY_MUTATING = {"add", "source"}
 REGISTRY_PURE = {"get", "keys", "values", "items", "copy", "__contains__", "__getitem__", "__iter__", "__len__"}
@@ -25,7 +31,7 @@ def is_copy_expr(m, f, e, var, consts):
         if isinstance(e.func, ast.Attribute) and e.func.attr == "copy" and var in names_in(e.func.value):
             return True
         for g in m.callee_funcs(f, e):
-            if g.name == "get_mutable_plan" and e.args and is_name(e.args[0], var):
+            if roles.is_mutable_plan_func(m, g) and e.args and is_name(e.args[0], var):
                 ip = arg(e, 1, "inplace")
                 if isinstance(ip, ast.Constant):
                     return ip.value is False
@@ -50,7 +56,7 @@ def owned_uses(ctx, rid, m, f, var, kind, consts, chain, depth=0, seen=None, own
         if owned_defs is None:
             return d is g.entry
         return d.ast is not None and any(d.ast is a for a in owned_defs)
-    mutating = PLAN_MUTATING if kind == "plan" else REGISTRY_MUTATING if kind == "registry" else set()
+    mutating = plan_mutating(m) if kind == "plan" else REGISTRY_MUTATING if kind == "registry" else set()
     n_uses = 0
     mod = f.module
     if kind == "registry":
@@ -402,7 +408,7 @@ def check(ctx):
                     if isinstance(t.value, ast.Name):
                         bs = [b for b in f.bindings.get(t.value.id, []) if b[0] != "param"]
                         fresh = bool(bs) and all(b[0] == "assign" and isinstance(b[1], ast.Call) and (
-                            (isinstance(b[1].func, ast.Attribute) and b[1].func.attr in ("_call", "lit", "call")) or
+                            (isinstance(b[1].func, ast.Attribute) and b[1].func.attr in ("lit", "call", roles.call_ctor(m).name)) or
                             any(o[0] == "class" for o in m.origins_of(f, b[1].func))) for b in bs) and \
                             not any(b[0] == "param" for b in f.bindings.get(t.value.id, []))
                     ctx.ob("C13.M3", f"{f.short}/{norm(t)}", fresh, loc(f, node),
